@@ -655,8 +655,19 @@ func (n *nlWrap) routeReplace(rt *netlink.Route) error {
 // noteReplaceFailed counts the window the early-cleanup path opens: Felix has
 // deleted a route itself and the replacement did not go in.
 func (w *world) noteReplaceFailed(key string) {
-	if _, ok := w.felixDeleted[key]; ok {
+	if d, ok := w.felixDeleted[key]; ok {
 		w.r.Probe("own_delete_then_replace_failed")
+		// is the deleted route still wanted by a (currently losing) candidate?
+		for rk, byIf := range w.desired {
+			for ifn, byKey := range byIf {
+				if t, ok := byKey[key]; ok {
+					if c, ok := w.expectedRoute(desiredEntry{rank: rk, iface: ifn, target: t}); ok && c == d.canon {
+						w.r.Probe("own_delete_of_still_wanted_route_then_replace_failed")
+						return
+					}
+				}
+			}
+		}
 	}
 }
 
@@ -777,6 +788,12 @@ func (w *world) linkOp(label string) string {
 	case 3: // bounce: down and straight up again
 		if !w.linkUp(name) {
 			w.kSet(name, true, false)
+			if w.r.Src.Chance(500, label+"_blip") {
+				// comes up and drops again before anybody reacts
+				w.kSet(name, false, true)
+				w.r.Probe("link_blipped")
+				return "link blip (up, down) " + name
+			}
 			return "link up " + name
 		}
 		w.kSet(name, false, !w.r.Src.Chance(200, label+"_noflush"))
@@ -1295,9 +1312,9 @@ var faultKinds = []string{
 func run(r *core.R) {
 	r.FaultDecl(faultKinds...)
 	r.FaultDecl("kernel_change_during_apply", "notification_lost", "oob_delete_owned_route", "oob_delete_foreign_route", "oob_add_owned_looking_route", "oob_add_foreign_route")
-	r.ProbeDecl("apply_ok", "apply_returned_error", "exact_check_in_chaos", "exact_check_after_settling", "exact_check_keys", "exact_check_skipped_unsettled_key", "link_bounced", "conflict_resolved_by_class", "conflict_fallback_better_class_link_down",
+	r.ProbeDecl("apply_ok", "apply_returned_error", "exact_check_in_chaos", "exact_check_after_settling", "exact_check_keys", "exact_check_skipped_unsettled_key", "link_bounced", "link_blipped", "conflict_resolved_by_class", "conflict_fallback_better_class_link_down",
 		"grace_period_kept_unknown_route", "foreign_route_replaced_by_desired", "flap_without_apply_between", "link_renumbered",
-		"kernel_rejected_absent_link", "kernel_rejected_down_link", "route_del_esrch", "eintr_burst_armed", "route_replace_failed_persistently", "own_delete_then_replace_failed", "socket_reopened",
+		"kernel_rejected_absent_link", "kernel_rejected_down_link", "route_del_esrch", "eintr_burst_armed", "route_replace_failed_persistently", "own_delete_then_replace_failed", "own_delete_of_still_wanted_route_then_replace_failed", "socket_reopened",
 		"full_listing_ok", "iface_listing_ok", "iface_listing_failed", "kernel_change_during_apply", "start_state_stale_owned_routes",
 		"start_state_foreign_routes", "sut_used_closed_netlink_handle", "converged_after_1", "converged_after_2", "converged_after_3", "conntrack_cleanup_called", "ipv6_run")
 
